@@ -4,7 +4,7 @@ from .util import call
 
 ID = 'C13'
 LEAN_MODULE = 'KernProofs.C13'
-THEOREMS = []
+THEOREMS = ['KM.C13.C13_select_then_view', 'KM.C13.C13_view_then_select', 'KM.C13.C13_independent_arguments', 'KM.C13.C13_default_spine_types', 'KM.C13.C13_default_encoding', 'KM.C13.C13_default_exclude', 'KM.C13.C13_default_include']
 FINGERPRINTS = ['exporter.Exporter.export_string', 'exporter.Exporter.append_row', 'exporter.Exporter.export_token', 'generic.Generic',
                 'public', 'exporter.ExportOptions', 'tokenizers.TokenizerFactory.create']
 RULE = ('generated documents (quick 20 / thorough 200) x the product of: random subsets of spine ids / types, include/exclude pairs, the six '
